@@ -146,8 +146,8 @@ def run(prop, tier, seed, t0):
     bins, notes, failed = plan.bins_for(cfgs, ('rel', 'chk') if tier == 'quick' else ('rel', 'chk'))
     if failed:
         return plan.fail_build(prop, failed)
-    size = 160 if tier == 'quick' else 6000
-    nt = 8 if tier == 'quick' else 32
+    size = 160 if tier == 'quick' else 18000
+    nt = 8 if tier == 'quick' else 64
     tasks = plan.spread_tasks('vlib.props.c15', 'task', prop, seed, size, plan.plain(bins), ntasks=nt)
     extra = {}
     if tier == 'thorough':
